@@ -1,5 +1,8 @@
 """C09 - MCMC kernels implement their algorithm and never leave the target's support.
 
+nuts-trajectory part: with a given step size and no adaptation the points one NUTS iteration evaluates are THE leapfrog
+trajectory through the current state (the algorithm the docstring names), checked against an independent integrator.
+
 Oracle: an independently written random-walk Metropolis that replays the same RandomState stream
 (bit-equal chain); for NUTS: row count, seed determinism, finiteness of the target at every
 returned state, and moment tests on Gaussian / truncated-Gaussian / exponential targets.
@@ -246,6 +249,117 @@ def run_nuts(case):
     return CaseResult(labels, True if (moved and support) else None)
 
 
+
+# ------------------------------------------------------------------ NUTS: one iteration is a leapfrog trajectory
+
+class LoggedTarget(Target):
+    """Records every point at which the log-target or its gradient is evaluated."""
+
+    def __init__(self, desc):
+        Target.__init__(self, desc)
+        self.visited = []
+
+    def __call__(self, x):
+        self.visited.append(np.array(x, dtype=float).reshape(-1))
+        return Target.__call__(self, x)
+
+    def grad(self, x):
+        self.visited.append(np.array(x, dtype=float).reshape(-1))
+        return Target.grad(self, x)
+
+
+def strat_trajectory(tier):
+    return st.fixed_dictionaries({
+        'target': target_desc(), 'seed': st.integers(0, 2 ** 32 - 1), 'near_edge': st.booleans(),
+        'eps': st.sampled_from([0.003, 0.01, 0.03, 0.1, 0.3, 1.0]), 'max_depth': st.sampled_from([1, 2, 3, 5, 7]),
+    })
+
+
+def run_trajectory(case):
+    """nuts(n_iter=1, n_adapt=0, stepsize=eps): the step size of the one iteration is the given one, so every point the
+    iteration evaluates must lie on THE leapfrog trajectory through the start point (Hoffman & Gelman, Algorithm 6:
+    r' = r + eps/2 grad L(theta); theta' = theta + eps r'; r'' = r' + eps/2 grad L(theta')).  The initial momentum is
+    not assumed: it is inferred from the first new point, everything after that is determined."""
+    from elfi.methods.mcmc import nuts
+    t = LoggedTarget(case['target'])
+    ref = Target(case['target'])
+    rs = np.random.RandomState(case['target']['seed'] + 7)
+    x0 = t.start(rs, case['near_edge'])
+    eps, D = case['eps'], case['max_depth']
+    ctx = 'target=%r seed=%d stepsize=%r max_depth=%d x0=%r; nuts(1, x0, target, grad, n_adapt=0, stepsize=stepsize, max_depth=max_depth, seed=seed)' % (
+        case['target'], case['seed'], eps, D, x0.tolist())
+    with must_not_raise(P, 'nuts; ' + ctx):
+        with time_limit(120, 'C09:nuts-hangs', 'nuts'):
+            with np.errstate(all='ignore'):
+                got = np.asarray(nuts(1, x0.copy(), t, t.grad, n_adapt=0, stepsize=eps, max_depth=D, seed=case['seed']))
+    if got.shape != (1, t.d):
+        raise Violation('C09:nuts-shape', 'returned %r states for n_iter=1 in %d dimensions; %s' % (got.shape, t.d, ctx))
+    # distinct visited points in order of first evaluation
+    pts = []
+    for v in t.visited:
+        if not any(np.array_equal(v, p) for p in pts):
+            pts.append(v)
+    new = [p for p in pts if not np.array_equal(p, x0)]
+    labels = ['target=' + t.kind, 'new-points=%s' % ('0' if not new else '1' if len(new) == 1 else '2-3' if len(new) <= 3 else '4-15' if len(new) <= 15 else '16+')]
+    scale = 1.0 + float(np.max(np.abs(x0)))
+    if len(new) > 2 ** (D + 1) - 1:
+        raise Violation('C09:nuts-trajectory-too-long', 'one iteration evaluated %d new points, a tree of depth <= %d has at most %d leaves; %s'
+                        % (len(new), D, 2 ** (D + 1) - 1, ctx))
+    if not new:
+        if not np.array_equal(got[0], x0):
+            raise Violation('C09:nuts-state-not-on-trajectory', 'returned state %r was never evaluated; %s' % (got[0].tolist(), ctx))
+        return CaseResult(labels, None)
+    # the first new point is one leapfrog step from x0 in direction v: b = x0 + v eps (r0 + v eps/2 g0); take v = +1 (v = -1 gives
+    # the same trajectory traversed backwards)
+    g0 = ref.grad(x0)
+    b = new[0]
+    r0 = (b - x0) / eps - 0.5 * eps * g0
+    if not np.all(np.isfinite(r0)):
+        raise Violation('C09:nuts-point-not-on-leapfrog-trajectory', 'first evaluated point %r is not finite; %s' % (b.tolist(), ctx))
+    n_side = 2 ** (D + 1)
+    traj = {0: x0}
+    for v in (1, -1):
+        th, r = x0.copy(), r0.copy()
+        for k in range(1, n_side + 1):
+            with np.errstate(all='ignore'):
+                r = r + 0.5 * v * eps * ref.grad(th)
+                th = th + v * eps * r
+                r = r + 0.5 * v * eps * ref.grad(th)
+            if not np.all(np.isfinite(th)):
+                break
+            traj[v * k] = th.copy()
+    keys = sorted(traj)
+    arr = np.array([traj[k] for k in keys])
+    idx = []
+    for j, p in enumerate(new):
+        if not np.all(np.isfinite(p)):
+            labels.append('non-finite-point')
+            continue
+        dist = np.max(np.abs(arr - p), axis=1)
+        m = int(np.argmin(dist))
+        span = scale + float(np.max(np.abs(arr[m])))
+        if not dist[m] <= 1e-8 * span:
+            raise Violation('C09:nuts-point-not-on-leapfrog-trajectory',
+                            'the %d-th new point the iteration evaluated, %r, is not on the leapfrog trajectory with step %r through the start '
+                            '(initial momentum %r inferred from the first point %r); nearest trajectory point is #%d = %r (distance %.3g); %s'
+                            % (j + 1, p.tolist(), eps, r0.tolist(), b.tolist(), keys[m], arr[m].tolist(), dist[m], ctx))
+        idx.append(keys[m])
+    if idx:
+        lo, hi = min(idx + [0]), max(idx + [0])
+        missing = [k for k in range(lo, hi + 1) if k != 0 and k not in idx]
+        if missing and 'non-finite-point' not in labels:
+            raise Violation('C09:nuts-trajectory-not-contiguous', 'evaluated trajectory indices %r skip %r; %s' % (sorted(idx), missing, ctx))
+    st_ = got[0]
+    if not (np.array_equal(st_, x0) or any(np.array_equal(st_, p) for p in new)):
+        raise Violation('C09:nuts-state-not-on-trajectory', 'returned state %r is neither the start nor a point the iteration evaluated; %s' % (st_.tolist(), ctx))
+    v = ref(st_)
+    if math.isinf(v) or math.isnan(v):
+        raise Violation('C09:nuts-state-outside-support', 'returned state %r has log-target %r; %s' % (st_.tolist(), v, ctx))
+    if not np.array_equal(st_, x0):
+        labels.append('moved')
+    return CaseResult(labels, True if len(new) >= 3 else None)
+
+
 # ------------------------------------------------------------------ moments
 
 def strat_moments(tier):
@@ -306,19 +420,20 @@ CHECK = Check(
           'half-space; a target returning NaN outside its domain; flat box; exponential on the positive orthant; each optionally with an additive constant of -1e6 / 3e7), valid starting points '
           '(optionally next to the boundary), scalar or per-dimension proposal scales, warm-up 0-20, 1-80 states, seeds; the returned '
           'chain must be bit-equal to an independent implementation replaying RandomState(seed). nuts: n_iter 2-120, n_adapt, max_depth, whole-number start points also handed over as int64 arrays (same chain as from float64 required), '
-          'row count, determinism, finite log-target at every returned state. moments: chains of 12000 (NUTS) / 48000 (Metropolis) draws '
+          'row count, determinism, finite log-target at every returned state. nuts-trajectory: single iterations with a GIVEN step size (0.003-1, n_adapt=0, max_depth 1-7) on the same targets with a target/gradient that logs every evaluation point: every evaluated point must lie (1e-8 relative) on the leapfrog trajectory through the start whose initial momentum is inferred from the first new point, the evaluated trajectory indices are contiguous, at most 2^(max_depth+1)-1 new points, and the returned state is the start or an evaluated point with finite log-target. moments: chains of 12000 (NUTS) / 48000 (Metropolis) draws '
           'against analytic means/variances (Gaussian, Gaussian truncated by -inf or by NaN, exponential) with 5-sigma-over-sqrt(ESS lower bound) tolerances. Non-trivial: the chain contains accepted '
           'and rejected moves and, for targets with a support, at least one proposal outside it (metropolis); the chain moved on a '
-          'target with a support (nuts).'),
+          'target with a support (nuts); the iteration evaluated at least 3 new points (nuts-trajectory).'),
     parts=[Part('metropolis', run_metropolis, strategy=strat_metropolis, examples={'quick': 600, 'thorough': 48000}),
            Part('nuts', run_nuts, strategy=strat_nuts, examples={'quick': 100, 'thorough': 4800}, shards={'quick': 8, 'thorough': 16}),
+           Part('nuts-trajectory', run_trajectory, strategy=strat_trajectory, examples={'quick': 800, 'thorough': 48000}, shards={'quick': 8, 'thorough': 16}),
            Part('moments', run_moments, strategy=strat_moments, examples={'quick': 32, 'thorough': 480}, shards={'quick': 8, 'thorough': 16}, shrink=False)],
     assumptions=['log-targets return Python floats (array-valued targets are outside the contract)',
                  'the moment tests use fixed seeds from the case and thresholds beyond 5 standard errors with a conservative ESS lower bound',
                  'NUTS may refuse a starting point (ValueError / SystemExit while searching the initial step size): counted, not judged'],
     design_ref='DESIGN.md section 4, C09',
     technique='Hypothesis-generated targets/configurations; reference Metropolis replaying the same random stream (bit-equal); '
-              'invariants and analytic moment tests for NUTS',
+              'NUTS: logged evaluation points of single iterations against a reference leapfrog trajectory, invariants and analytic moment tests',
     level_text='Exploration: Metropolis is compared bit for bit with an independent 15-line implementation consuming the same '
-               'stream; NUTS is checked for row count, determinism and support; both reproduce analytic moments within conservative bounds.',
+               'stream; NUTS is checked for row count, determinism and support, and every point one iteration evaluates against the reference leapfrog trajectory; both reproduce analytic moments within conservative bounds.',
     level_note='Statistical part detects gross algorithmic errors, not small biases.')
